@@ -360,6 +360,14 @@ class _Found(Exception):
     pass
 
 
+_HYP_REGISTRY: Dict[str, Any] = {}
+
+
+def _hyp_shard(rec: "Recorder", k: int, n: int, key: str) -> None:
+    strategy, oracle, per_shard, seed_offset, max_buckets, shrink = _HYP_REGISTRY[key]
+    drive_hypothesis(rec, key.split("/", 1)[1], strategy, oracle, per_shard, seed_offset + 1_000_003 * (k + 1), max_buckets, shrink, parallel=False)
+
+
 def drive_hypothesis(
     rec: Recorder,
     sub: str,
@@ -369,10 +377,20 @@ def drive_hypothesis(
     seed_offset: int = 0,
     max_buckets: Optional[int] = None,
     shrink: bool = True,
+    parallel: bool = True,
 ) -> None:
     """Run `oracle` over `max_examples` cases drawn from `strategy`.  Failures whose bucket is
     a known finding are counted and skipped; a new bucket is shrunk, recorded, added to the
-    skip set and the search restarted (collect-then-shrink), up to max_buckets."""
+    skip set and the search restarted (collect-then-shrink), up to max_buckets.
+
+    In the thorough tier a large budget is split over forked worker processes (one Hypothesis run
+    per shard, seed = f(VERIF_SEED, shard)); the shard recorders are merged."""
+    if parallel and rec.tier == "thorough" and max_examples >= 3000 and ncpu() > 1:
+        shards = min(16, ncpu())
+        key = f"{rec.pid}/{sub}"
+        _HYP_REGISTRY[key] = (strategy, oracle, max(1, max_examples // shards), seed_offset, max_buckets, shrink)
+        run_sharded(rec, _hyp_shard, shards, shards, (key,))
+        return
     import hypothesis
     from hypothesis import HealthCheck, Phase, given, settings
 
